@@ -13,7 +13,7 @@ LEVEL = "fault_enumeration"
 SHARDS = {"quick": 8, "thorough": 16}
 RULE = (
     "fault enumeration: session scripts for 2-3 concurrent connections (handshake, enableBLOB Never/Also/Only, client writes, "
-    "device text and BLOB traffic; a fixed catalogue of scripts enumerated exhaustively plus Hypothesis-drawn scripts) x fault kind "
+    "device text and BLOB traffic, connections that announce devices of their own (def*Vector from a peer) and writes to those; a fixed catalogue of scripts enumerated exhaustively plus Hypothesis-drawn scripts) x fault kind "
     "{EOF, read error, EOF inside a message, read error inside a message, junk then EOF, exception (RuntimeError, StopIteration, KeyError) while one of its messages is handled "
     "by a device - also with more traffic behind it in the same read -, write "
     "error on the peer followed by read error, EOF of two connections in the same loop iteration} x EVERY step index of the script x victim connection x transport of the victim "
@@ -69,6 +69,7 @@ def run_script(case):
         victim_i = case["victim"] % nconn
         victim = peers[victim_i]
         policy = [{} for _ in peers]
+        announced = [set() for _ in peers]
         script = case["script"]
         at = case["at"] % (len(script) + 1)
         drv = s.dep.drivers[0]
@@ -95,6 +96,13 @@ def run_script(case):
                 policy[step["c"] % nconn]["DEV"] = step["v"]
             elif t == "write":
                 c.send(session.xml("newTextVector", {"device": "DEV", "name": "TXT"}, [{"kind": "oneText", "attrs": {"name": "A"}, "text": step.get("val", "w")}]))
+            elif t == "announce":
+                # a peer that is itself a server or a firmware: it announces a device of its own to this server
+                name = f"R{step.get('k', 0) % 3}"
+                c.send(session.xml("defTextVector", {"device": name, "name": "T", "state": "Ok", "perm": "rw"}, [{"kind": "defText", "attrs": {"name": "a"}, "text": "v"}]))
+                announced[step.get("c", 0) % nconn].add(name)
+            elif t == "write-remote":
+                c.send(session.xml("newTextVector", {"device": f"R{step.get('k', 0) % 3}", "name": "T"}, [{"kind": "oneText", "attrs": {"name": "a"}, "text": "w"}]))
             elif t == "devtext":
                 counter[0] += 1
                 val = f"{step.get('val', 'd')}-{counter[0]}"
@@ -207,9 +215,9 @@ def run_script(case):
         if not any(e.tag == "defTextVector" and e.get("name") == "TXT" for e in newcomer.elements(newcomer.new_output())):
             raise Failure(f"newcomer-handshake-not-answered:{fault}", f"{where}: a connection opened after the fault got no definitions for its getProperties")
         for step in script[at:]:
-            if step.get("c", 0) % nconn == victim_i and step["s"] in ("hs", "blob", "write"):
+            if step.get("c", 0) % nconn == victim_i and step["s"] in ("hs", "blob", "write", "announce", "write-remote"):
                 continue
-            if second_victim is not None and peers[step.get("c", 0) % nconn] is second_victim and step["s"] in ("hs", "blob", "write"):
+            if second_victim is not None and peers[step.get("c", 0) % nconn] is second_victim and step["s"] in ("hs", "blob", "write", "announce", "write-remote"):
                 continue
             do(step)
         s.settle()
@@ -217,6 +225,9 @@ def run_script(case):
             p.new_output()  # only the traffic that follows is judged against the policies as they are now
         post = do({"s": "devtext", "val": "post"})
         do({"s": "devblob", "n": 7})
+        # somebody writes to every device the ended connection had announced
+        for name in sorted(announced[victim_i]):
+            newcomer.send(session.xml("newTextVector", {"device": name, "name": "T"}, [{"kind": "oneText", "attrs": {"name": "a"}, "text": "late"}]))
         s.settle()
         if spy["n"]:
             raise Failure(f"delivery-attempted-to-closed-connection:{victim.kind}:{fault}", f"{where}: {spy['n']} deliveries")
@@ -367,6 +378,7 @@ SCRIPTS = [
     [{"s": "blob", "c": 0, "v": "Only"}, {"s": "blob", "c": 1, "v": "Also"}, {"s": "hs", "c": 0}, {"s": "devblob", "n": 3}, {"s": "write", "c": 0, "val": "w2"}, {"s": "devtext"}],
     [{"s": "hs", "c": 2}, {"s": "blob", "c": 2, "v": "Also"}, {"s": "blob", "c": 1, "v": "Never"}, {"s": "devtext"}, {"s": "blob", "c": 0, "v": "Only"}, {"s": "devblob", "n": 20}, {"s": "write", "c": 2, "val": "w3"}],
 ]
+SCRIPTS.append([{"s": "hs", "c": 0}, {"s": "announce", "c": 0, "k": 0}, {"s": "announce", "c": 1, "k": 2}, {"s": "announce", "c": 0, "k": 1}, {"s": "blob", "c": 0, "v": "Also"}, {"s": "write-remote", "c": 1, "k": 0}, {"s": "devtext"}])
 CONNS = [["tcp", "tcp"], ["tty", "tcp"], ["tcp", "tcp", "tcp"], ["tcp", "tty", "tcp"]]
 
 step_st = st.one_of(
@@ -374,6 +386,8 @@ step_st = st.one_of(
     st.fixed_dictionaries({"s": st.just("blob"), "c": st.integers(0, 2), "v": st.sampled_from(["Never", "Also", "Only"])}),
     st.fixed_dictionaries({"s": st.just("write"), "c": st.integers(0, 2), "val": st.sampled_from(["x", "y z", "<&>"])}),
     st.fixed_dictionaries({"s": st.just("devtext"), "val": st.sampled_from(["d", "e"])}),
+    st.fixed_dictionaries({"s": st.just("announce"), "c": st.integers(0, 2), "k": st.integers(0, 2)}),
+    st.fixed_dictionaries({"s": st.just("write-remote"), "c": st.integers(0, 2), "k": st.integers(0, 2)}),
     st.fixed_dictionaries({"s": st.just("devblob"), "n": st.integers(0, 39)}),
 )
 case_st = st.fixed_dictionaries(
@@ -397,7 +411,7 @@ def blocks(tier):
 
 def run(ctx):
     cnt = ctx.each("catalogue", blocks(ctx.tier), check_block, stop_after=4, timeout=150)
-    ctx.exhaustive["catalogue"] = {"complete": True, "n_blocks": cnt, "bound": "3 scripts x 4 connection sets x every victim x 6 fault kinds x every step index"}
+    ctx.exhaustive["catalogue"] = {"complete": True, "n_blocks": cnt, "bound": f"{len(SCRIPTS)} scripts x 4 connection sets x every victim x 6 fault kinds x every step index"}
     ctx.hyp("scripts", case_st, check_case, ctx.scale(300, 3000))
     n_soak = ctx.scale(60, 400)
     soaks = [{"fault": f, "n": n_soak, "kind": k} for f, k in [("rotate", "mixed"), ("handler-exception", "tcp"), ("read-error-in-message", "tcp"), ("eof", "tty"), ("write-error-then-read-error", "tcp")]]
